@@ -73,13 +73,19 @@ Definition full_pad (ls : list line) (shift0 H : N) : bool :=
    When shift = 0 (always under Top alignment) this is the plain [paint] loop. *)
 Definition draw_to_term (ls : list line) (n : N) (al : alignment) (below : bool) (W H : N)
   : list termop * N * bool :=
+  (* fix 7d42cff: the redrawn region is never taller than the terminal (rows that scrolled off the
+     top can neither be erased nor padded): the count is capped before it is used *)
+  let n := N.min n H in
   let full := visual_line_count ls W in
   let shift0 := match al with
                 | Bottom => if full <? n then n - full else 0
                 | Top => 0
                 end in
-  let '(pops, real, shift) :=
-    if shift0 =? 0 then let '(po, re) := paint ls 0 (N.of_nat (length ls)) W H 0 in (po, re, 0)
+  (* [any]: the paint loop itself wrote a line (fix dadbe71: a non-empty vector paints nothing when
+     its first line is a Bar line that does not fit the height) *)
+  let '(pops, real, shift, any) :=
+    if shift0 =? 0 then let '(po, re) := paint ls 0 (N.of_nat (length ls)) W H 0 in
+                        (po, re, 0, match po with [] => false | _ => true end)
     else
       let padded0 := negb (starts_with_text ls) in
       let '(po, re, pf) := paint_pad ls 0 (N.of_nat (length ls)) W H 0 shift0 padded0 in
@@ -87,10 +93,9 @@ Definition draw_to_term (ls : list line) (n : N) (al : alignment) (below : bool)
          less for an empty line list whose padding is at least as tall as the terminal *)
       ((if padded0 then repeat (TLine []) (N.to_nat (shift0 - (if full_pad ls shift0 H then 1 else 0))) else [])
          ++ po, re,
-       if pf then shift0 else 0) in
-  (* after fix 'an empty frame with bottom alignment leaves the cursor below the padded region':
-     only a draw WITH lines leaves the cursor on the last row of the region *)
-  let below' := if negb (match ls with [] => true | _ => false end) then false
+       (if pf then shift0 else 0), match po with [] => false | _ => true end) in
+  (* only a draw that wrote a line leaves the cursor on the last row of the region *)
+  let below' := if any then false
                 else if negb (n =? 0) then negb (full_pad ls shift0 H) else below in
   ((if below && (0 <? n) then [TUp 1] else [])
      ++ clear_ops n ++ pops ++ [TFlush],
